@@ -71,6 +71,27 @@ PY
         /verif/target/debug/vcheck "$ID" --fuzz-input "$f" --part "$part"; r=$?
       fi
       if [ $r -eq 1 ]; then VERDICT=1; break; fi
+      if [ $r -eq 0 ] && [ "$target" = "prop" ]; then
+        # passes in the ordinary build: a memory error that only AddressSanitizer sees?  Re-run the
+        # single input in the instrumented binary; a sanitizer report on a valid program is a violation
+        rep=$(ASAN_OPTIONS=detect_leaks=0:detect_odr_violation=0 VH_FUZZ=$ID:$part $BIN_DIR/$target "$f" 2>&1)
+        if echo "$rep" | grep -q "ERROR: AddressSanitizer"; then
+          kind=$(echo "$rep" | grep -m1 "ERROR: AddressSanitizer" | sed 's/.*AddressSanitizer: \([a-z-]*\).*/\1/')
+          site=$(echo "$rep" | grep -m1 "^SUMMARY: AddressSanitizer" | sed 's/.*\/repo\///; s/ in .*//')
+          out=/verif/replays/$ID/fail-asan-$part-$(basename "$f" | cut -c7-22).json
+          mkdir -p /verif/replays/$ID
+          python3 - "$f" "$out" "$ID" "$part" "$kind" "$site" <<'PY'
+import json,sys
+f,out,pid,part,kind,site=sys.argv[1:7]
+case=json.load(open(f))
+json.dump({"property":pid,"part":part,"expect":"pass","asan":True,"sig":"asan/%s/%s"%(kind,site),
+           "msg":"AddressSanitizer: %s at %s; passes in an uninstrumented build, reproduce with: /verif/run.sh %s replay <this file>"%(kind,site,pid),"case":case},open(out,"w"),indent=1)
+PY
+          echo "  failure [asan/$kind/$site]: AddressSanitizer reports $kind at $site while the check executes this (valid) case"
+          echo "VIOLATION property=$ID replay=$out"
+          VERDICT=1; break
+        fi
+      fi
       if [ $r -ne 0 ]; then
         # (resource limits of libFuzzer under load, ASan-only effects): reported, never a violation
         echo "note: property=$ID artifact $(basename $f) of campaign $part did not reproduce a property failure outside of libFuzzer (exit $r); kept as $FUZZ/artifacts/$ID-$part/$(basename $f)"
